@@ -202,8 +202,52 @@ def base_jobs(tier):
     return out
 
 
+class MaskedTotal(Total):
+    """same obligations with a numpy masked array as the caller's data carrier: free mask bits *and* free NaNs underneath"""
+
+    def __init__(self, base, arrays):
+        Total.__init__(self, base)
+        self.arrays = arrays
+        self.name = "total/pure[masked carrier]: " + base.name
+
+    def declare(self, V):
+        S = Total.declare(self, V)
+        S._mask = {name: [V.bool(f"mk_{name}{i}") for i in range(len(getattr(S, name)))] for name in self.arrays}
+        return S
+
+    def invoke(self, mods, S, K):
+        rec = Recorder(mods, _other_call)
+        return self.base.invoke(rec, S, _MaskedKit(K, S, self.arrays))
+
+
+class _MaskedKit:
+    def __init__(self, K, S, arrays):
+        self.K, self.S, self.arrays = K, S, arrays
+        self.sym = K.sym
+
+    def __getattr__(self, name):
+        return getattr(self.K, name)
+
+    def farray(self, vals, owner="caller"):
+        for name in self.arrays:
+            arr = getattr(self.S, name)
+            if len(arr) == len(vals) and all(a is b or (a != a and b != b) or (not isinstance(a, Sym) and a == b)
+                                             for a, b in zip(arr, vals)) and len(vals):
+                return self.K.marray(list(vals), list(self.S._mask[name]))
+        return self.K.farray(vals)
+
+
 def jobs(tier):
-    return [Total(b) for b in base_jobs(tier)]
+    out = [Total(b) for b in base_jobs(tier)]
+    n = 2 if tier == "quick" else 3
+    M = c08.MemberShape
+    out += [MaskedTotal(c03.GrossRange(n, True), ["x"]), MaskedTotal(c03.ValidRange(n, "float64", True, False), ["x"]),
+            MaskedTotal(c09.Spike(n + 1, "average", True, True), ["x"]), MaskedTotal(c10.RateOfChange(n), ["x"]),
+            MaskedTotal(c13.Density(n, True, True), ["rho", "z"]), MaskedTotal(c14.Location(n, "given", True), ["lon", "lat"]),
+            MaskedTotal(c11.FlatLine(3, 60), ["x"]), MaskedTotal(c10.Speed(n), ["lon", "lat"]),
+            MaskedTotal(c12.Attenuated(n, "range", False), ["x"]),
+            MaskedTotal(c08.Climatology(n, [M("month", True, True)], prop="C01"), ["x", "z"])]
+    return out
 
 
 FUNCTIONS = ["ioos_qc/qartod.py:location_test", "ioos_qc/qartod.py:gross_range_test", "ioos_qc/qartod.py:climatology_test",
